@@ -191,7 +191,7 @@ def strhex2float(x, signed=True, n_word=None, n_frac=None, return_sizes=False):
     else:
         return val
 
-def str2num(x, signed=True, n_word=None, n_frac=None, base=10, return_sizes=False):
+def str2num(x, signed=True, n_word=None, n_frac=None, base=10, return_sizes=False, raw=False):
     if isinstance(x, np.ndarray) and x.dtype.kind in 'US':
         x = x.tolist()      # an array of strings inside a list (the rendering of a 2-D object is a list of per-row string arrays)
 
@@ -202,7 +202,7 @@ def str2num(x, signed=True, n_word=None, n_frac=None, base=10, return_sizes=Fals
 
         val = []
         for v in x:
-            _val, _signed, _n_word, _n_frac = str2num(v, signed, n_word, n_frac, base, return_sizes=True)
+            _val, _signed, _n_word, _n_frac = str2num(v, signed, n_word, n_frac, base, return_sizes=True, raw=raw)
             val.append(_val)
 
             _signed = _signed_max or _signed
@@ -217,6 +217,9 @@ def str2num(x, signed=True, n_word=None, n_frac=None, base=10, return_sizes=Fals
 
     elif isinstance(x, str):
         x = x.replace('h', 'x')     # for hex numbers: h -> x
+
+        if raw and (base == 2 or 'b' in x[:2]) and 'j' not in x:
+            x = x.replace('.', '')      # as a code, a binary string is its bits: the point (a rendering with frac_dot) does not scale them
 
         if base == 2 or 'b' in x[:2]:
             # binary
